@@ -323,6 +323,16 @@ def rule_parser(ctx, mod, sh, mean, model):
         ok = len(paths) == 1 and paths[0].kind == "return" and paths[0].value == []
         ctx.check(ok, R, "nc[%s]" % nc, fi.where(), "from_shorthand(%r)" % nc,
                   "%r gives %s instead of the empty chord" % (nc, [(p.kind, p.value) for p in paths]))
+    # 'NC' is the empty chord on every request, also after a caller has edited an earlier answer
+    def nc_history(it):
+        first = it.call_function(fi, ["NC"], {})
+        if isinstance(first, list):
+            first.append("X")
+        return first, it.call_function(fi, ["NC"], {}), it.call_function(fi, [["NC", "N.C."]], {})
+    ps = explore(lambda ch: Interp(ctx.repo, ch, summaries=model), nc_history)
+    ok = len(ps) == 1 and ps[0].kind == "return" and ps[0].value[1] == [] and ps[0].value[2] == [[], []]
+    ctx.check(ok, R, "nc.history", fi.where(), "from_shorthand('NC') after an earlier answer was modified",
+              "gives %s: the empty chord must be a fresh list on every request" % [(p.kind, short(repr(p.value), 80)) for p in ps])
     r1, r2 = nd.acc_run("R"), nd.acc_run("S")
     paths = _eval_from_shorthand(ctx, fi, model, lambda: [[AbsStr(["C", r1, "m"]), AbsStr(["E", r2, "7"])]])
     ok, why = bool(paths), "no outcome"
